@@ -33,3 +33,13 @@ Definition qc_eqb (a b : Qc) : bool := Qeq_bool (this a) (this b).
 Definition qclist_eqb (l1 l2 : list Qc) : bool := forallb2 qc_eqb l1 l2.
 (* |a-b| <= tol*scale, computed in Q *)
 Definition qc_close (tol scale : Q) (a b : Qc) : bool := qclose tol scale (this a) (this b).
+
+(* integers in K (used for stencil coefficients read from the source) *)
+Definition fz (K : FOps) (z : Z) : K :=
+  match z with
+  | Z0 => f0 K
+  | Zpos p => fnat K (Pos.to_nat p)
+  | Zneg p => fopp (fnat K (Pos.to_nat p))
+  end.
+Definition lincomb (K : FOps) (cs : list Z) (xs : list K) : K :=
+  fold_right fadd (f0 K) (map2 (fun c x => fmul (fz K c) x) cs xs).
